@@ -17,12 +17,31 @@ def indirect_callees(prog, m, cc):
   q = prog.resolve_call(m, cc)
   if q:
     return [q]
+  def display_of(name):
+    lst = [a.value for a in walk_local(m.node) if isinstance(a, ast.Assign) and u(a.targets[0]) == name]
+    if len(lst) == 1 and isinstance(lst[0], (ast.List, ast.Tuple)):
+      return [x for x in (prog.resolve_expr(m, e) for e in lst[0].elts) if x]
+    return None
+  # TABLE[i]() with TABLE a display of bound methods: any of them
+  if isinstance(cc.func, ast.Subscript) and isinstance(cc.func.value, ast.Name):
+    d = display_of(cc.func.value.id)
+    if d:
+      return d
   if isinstance(cc.func, ast.Name):
     for lp in walk_local(m.node):
-      if isinstance(lp, ast.For) and isinstance(lp.target, ast.Name) and lp.target.id == cc.func.id and isinstance(lp.iter, ast.Name):
-        lst = [a.value for a in walk_local(m.node) if isinstance(a, ast.Assign) and u(a.targets[0]) == lp.iter.id]
-        if len(lst) == 1 and isinstance(lst[0], ast.List):
-          return [x for x in (prog.resolve_expr(m, e) for e in lst[0].elts) if x]
+      if isinstance(lp, ast.For) and isinstance(lp.target, ast.Name) and lp.target.id == cc.func.id:
+        if isinstance(lp.iter, ast.Name):
+          d = display_of(lp.iter.id)
+          if d:
+            return d
+        elif isinstance(lp.iter, (ast.List, ast.Tuple)):
+          return [x for x in (prog.resolve_expr(m, e) for e in lp.iter.elts) if x]
+    # NAME = TABLE[i]
+    for a in walk_local(m.node):
+      if isinstance(a, ast.Assign) and u(a.targets[0]) == cc.func.id and isinstance(a.value, ast.Subscript) and isinstance(a.value.value, ast.Name):
+        d = display_of(a.value.value.id)
+        if d:
+          return d
     # parse_item in the container parser: any self.<method> stored in a dict display of the function
     out = []
     idx = None
@@ -69,9 +88,10 @@ def alternatives(ctx):
   pv = ctx.func(CP + '.parse_value')
   alts = []
   for n in walk_local(pv.node):
-    if isinstance(n, ast.Assign) and isinstance(n.value, ast.List):
-      for e in n.value.elts:
-        if isinstance(e, ast.Attribute) and isinstance(e.value, ast.Name) and e.value.id == 'self':
+    disp = n.value if isinstance(n, ast.Assign) else (n.iter if isinstance(n, ast.For) else None)
+    if isinstance(disp, (ast.List, ast.Tuple)):
+      for e in disp.elts:
+        if isinstance(e, ast.Attribute) and isinstance(e.value, ast.Name) and e.value.id == 'self' and e.attr not in alts:
           alts.append(e.attr)
   return pv, alts
 
@@ -160,7 +180,12 @@ def run(ctx):
     for pc in pieces:
       val = pc.value
       if isinstance(pc, ast.Assign):
-        okp = okp and isinstance(val, ast.Constant) and val.value == ''
+        tok = 'self._current_token.string'
+        fs = facts_at(g, facts, pc) or frozenset()
+        same_as_token = isinstance(val, ast.Constant) and isinstance(val.value, str) and \
+            (('c', '%s == %r' % (tok, val.value), True) in fs or ('c', '%r == %s' % (val.value, tok), True) in fs)
+        okp = okp and ((isinstance(val, ast.Constant) and val.value == '') or same_as_token or u(val) == tok
+                       or u(val).replace(' ', '') == '%s+%s' % (src, tok))
       else:
         okp = okp and isinstance(pc.op, ast.Add) and u(val) == 'self._current_token.string'
     ctx.check(okp, 'C02.delegate', construct(bt), 'the evaluated text is built only from exact token strings (no gin-specific decoding)',
